@@ -603,6 +603,17 @@ def _k1(ctx: Context) -> None:
         # data[alias] = self.aliases[alias].pairing_data
         if isinstance(x.value.value, ast.Subscript) and _u(x.value.value.value) == "self.aliases" and _u(x.value.value.slice) == _u(x.targets[0].slice):
             okd = True
+    # ... or {alias: pairing.pairing_data for alias, pairing in self.aliases.items()}
+    for x in walk_own(sf.node):
+        if isinstance(x, ast.DictComp) and len(x.generators) == 1 and not x.generators[0].ifs:
+            g0 = x.generators[0]
+            it = g0.iter
+            if isinstance(it, ast.Call) and isinstance(it.func, ast.Attribute) and it.func.attr == "items" and _u(it.func.value) == "self.aliases" \
+                    and isinstance(g0.target, ast.Tuple) and len(g0.target.elts) == 2 and all(isinstance(e, ast.Name) for e in g0.target.elts):
+                kn, vn = g0.target.elts[0].id, g0.target.elts[1].id
+                if isinstance(x.key, ast.Name) and x.key.id == kn and isinstance(x.value, ast.Attribute) and x.value.attr == "pairing_data" \
+                        and isinstance(x.value.value, ast.Name) and x.value.value.id == vn:
+                    okd = True
     ck.check("C20.K1", okd, "save_data writes {alias: pairing.pairing_data} for every alias", f"{ctx.fkey(sf)}:record",
              "save_data no longer writes every alias with its own pairing data", sf.loc())
     ld = ctx.func(f"{CTRL}.load_data")
